@@ -450,9 +450,14 @@ class Gen:
                     nd.attrs = ats
                     ops.append("A,%d,%s" % (pi, f[0]) + "".join(",%s,%s" % (hx(k), hx(v)) for k, v in ats))
                 elif code == "E" and rng.chance(1, 6) and not nd.tagopts & 1 and not self.is_data(langid, nd.name):
-                    tx = rng.choice(TEXTS)
-                    nd.kids.append(SNode("x", text=tx))
-                    ops.append("Y,%d,%s,%s" % (pi, f[0], hx(tx)))
+                    # element by XML name with text: non-empty, "" (len 0) or NULL - the last two add no text child
+                    k = rng.below(5)
+                    if k < 3:
+                        tx = rng.choice(TEXTS)
+                        nd.kids.append(SNode("x", text=tx))
+                        ops.append("Y,%d,%s,%s" % (pi, f[0], hx(tx)))
+                    else:
+                        ops.append("Y,%d,%s,%s" % (pi, f[0], "-" if k == 3 else "~"))
                 elif code == "G" and na and lang["attrs"]:
                     ats, fs = [], []
                     for _k in range(na):
@@ -483,6 +488,10 @@ class Gen:
                     tx = b"cdata text"
                 if rng.chance(1, 8):
                     tx = bytes(rng.choice(b"abcdefgh XYZ019.,;") for _ in range(rng.range(1, 24)))
+                if rng.chance(1, 10):
+                    # a text of length 0: after a text sibling it merges (adds nothing), otherwise - first child, after an
+                    # element - it becomes an empty text node
+                    tx = b""
                 ops.append("T,%d,%s" % (pi, hx(tx)))
                 snoc_merge(pn, SNode("x", text=tx))
                 exp.append(("ok", None))
